@@ -158,7 +158,7 @@ S(id="G.free", props=["C14", "C17"], spec="gram.spec.c", harness="h_free", mode=
   functions=["yaep_free_grammar", "pl_fin"],
   what="with ARBITRARY file-scope state (current grammar NULL or another object): the three storages, the object and its allocator are released exactly once each, "
        "through this object's allocator, in an order that never uses the object after it is gone; grammar == NULL and no parser list afterwards")
-S(id="D.front", props=["C11", "C14", "C15"], spec="gram.spec.c", harness="h_parse_grammar", mode="L", canaries=2, enforce=["yaep_parse_grammar/parse_grammar_c"],
+S(id="D.front", props=["C11", "C14", "C15", "C17"], spec="gram.spec.c", harness="h_parse_grammar", mode="L", canaries=2, enforce=["yaep_parse_grammar/parse_grammar_c"],
   replace=["set_sgrammar/set_sgrammar_c", "yaep_read_grammar/read_grammar_use_c", "free_sgrammar/free_sgrammar_c"], functions=["yaep_parse_grammar"],
   what="the argument is made the current grammar before the front end can fail (errors recorded in this object); a front-end failure returns its code; otherwise "
        "exactly what yaep_read_grammar returned on the replayed records; the intermediate form is released exactly once on every path")
